@@ -22,7 +22,7 @@ def run(chk):
                      materials=(('X',), (7,)) if quick else (('X',), (1,), (5, 'Y'), (7,)))
     E.replay_all(chk, recs, 'C15')
     # string assignments including the empty string, three deep (the string is read and set again after it was emptied)
-    recs3 = E.explore(chk, 'strings3', ['\\begin{c}x\\end{c} \\t{T}'], 3, ['set_string', 'append', 'delete', 'args_append'], names=('zz',), strs=('', 'u'),
+    recs3 = E.explore(chk, 'strings3', ['\\begin{c}x\\end{c} \\t{T}'], 3, ['set_string', 'append', 'delete', 'args_append', 'insert', 'replace_with'], names=('zz',), strs=('', 'u'),
                       materials=(('',), ('X',), ('', 1)))
     E.replay_all(chk, recs3, 'C15')
     for r in recs[:1] + recs[-2:]:
